@@ -438,6 +438,22 @@ pub fn run(cfg: &Cfg) -> Stats {
         .iter()
         .flat_map(|w| ["", "-u-ca-gregory", "-x-foo", "-valencia"].iter().map(move |s| format!("{w}{s}").into_bytes()))
         .collect();
+    // inputs with a well-formed extension other than t / u / x in every legal position: the library
+    // may reject or support them, but under case / separator images it must do the same for both
+    let others = gen::other_ext_inputs();
+    let no = others.len() as u64 * 6;
+    let s = par_range(no, |i, st| {
+        let w = &others[(i / 6) as usize];
+        let (c, sp) = match i % 6 {
+            0 => (u64::MAX, 0),
+            1 => (0, u64::MAX),
+            2 => (u64::MAX, u64::MAX),
+            k => (mix(k ^ cfg.seed ^ i), mix(k.wrapping_mul(131) ^ cfg.seed ^ i)),
+        };
+        check_raw(w, c, sp, st, Count::Hash);
+    });
+    total = total.merge(s);
+    total.subspace("inputs with an extension other than t / u / x (alone and next to -t-, -u-, -x-) x 6 case / separator images", no, false);
     let per = 40u64;
     let nw = words.len() as u64 * per;
     let s = par_range(nw, |i, st| {
